@@ -91,6 +91,8 @@ def rd_pack_info(f):
             t = rd_byte(f)
     # (digests without sizes: the format text brackets both as optional; 7-Zip's own reader waits for kSize first,
     #  and packed streams without sizes cannot be located - not accepted here either)
+    if n > 0 and len(sizes) != n:
+        raise FormatError("packed streams without sizes")
     if t != K_END:
         raise FormatError("pack info end")
     return {"packpos": packpos, "sizes": sizes, "crcs": crcs}
